@@ -166,11 +166,35 @@ func (w *world) close(h int) O {
 
 const watchdog = 4 * time.Second
 
+// closeRecvCounts: from the accounting log of package schema (hook schema/verif_c19_on.go,
+// build tag verif): for every base stream in creation order, how often its receive side was
+// closed (close(closed)).
+func closeRecvCounts(ev []schema.VerifC19Event) []int {
+	idx := map[int]int{}
+	var counts []int
+	for _, e := range ev {
+		switch e.Kind {
+		case "stream_new":
+			idx[e.ID] = len(counts)
+			counts = append(counts, 0)
+		case "stream_close_recv":
+			if k, ok := idx[e.ID]; ok {
+				counts[k]++
+			}
+		}
+	}
+	if counts == nil {
+		counts = []int{}
+	}
+	return counts
+}
+
 // ------------------------------------------------------------------ seq
 
 type seqObs struct {
 	Obs  []O    `json:"obs"`
 	NFwd int    `json:"nfwd"`
+	RCl  []int  `json:"rclosed"` // per base stream in creation order: number of closeRecv calls
 	Hang bool   `json:"hang,omitempty"`
 	Msg  string `json:"msg,omitempty"`
 }
@@ -196,6 +220,7 @@ func runSeq(c *Case) lib.Result {
 		}()
 		w := newWorld()
 		sh := newShadow()
+		schema.VerifC19Start()
 		type hist struct {
 			got    []Item
 			eof    bool
@@ -292,6 +317,30 @@ func runSeq(c *Case) lib.Result {
 		if w.nfwd != 0 {
 			fail("goroutine", fmt.Sprintf("array/copy/convert operations started %d goroutine(s)", w.nfwd))
 		}
+		// the underlying source is closed exactly once, and only when every reader derived from
+		// it has been closed (the base streams of a script are its pipes, in creation order)
+		out.RCl = closeRecvCounts(schema.VerifC19Stop())
+		var hps []int
+		for hp := range sh.pipes {
+			hps = append(hps, hp)
+		}
+		sortInts(hps)
+		if len(out.RCl) != len(hps) {
+			fail("streams", fmt.Sprintf("the script created %d base streams, expected its %d pipes", len(out.RCl), len(hps)))
+		} else {
+			for k, hp := range hps {
+				fed := sh.fed(hp)
+				want := 1
+				for _, h := range fed {
+					if !sh.hs[h].closed {
+						want = 0
+					}
+				}
+				if len(fed) > 0 && out.RCl[k] != want {
+					fail("source-close-count", fmt.Sprintf("the receive side of pipe %d was closed %d time(s), expected %d (readers derived from it: %v)", hp, out.RCl[k], want, fed))
+				}
+			}
+		}
 		// per-reader sequence = what its sources hold, in order; all of it at EOF
 		for h, hi := range hists {
 			strs := sh.hs[h].e.strands(accepted)
@@ -313,10 +362,11 @@ func runSeq(c *Case) lib.Result {
 	}
 	if out.Hang {
 		// the goroutine is still writing to out: report nothing from it
+		schema.VerifC19Stop()
 		res.Obs = seqObs{Hang: true}
 		res.Oracle, res.Sig = oracle, sig
 		res.Tags = []string{"mode:seq", "class:hang"}
-		res.CoqTerm = lib.CoqApp("CaseSeq", coqOps(c.Ops), "[BIllegal]", "0%nat")
+		res.CoqTerm = lib.CoqApp("CaseSeq", coqOps(c.Ops), "[BIllegal]", "0%nat", "[]")
 		return res
 	}
 	res.Obs = out
@@ -332,7 +382,7 @@ func runSeq(c *Case) lib.Result {
 		res.Tags = append(res.Tags, t)
 	}
 	res.Tags = append(res.Tags, fmt.Sprintf("seqops:%d", (len(c.Ops)/5)*5))
-	res.CoqTerm = lib.CoqApp("CaseSeq", coqOps(c.Ops), coqObs(out.Obs), lib.CoqNat(out.NFwd))
+	res.CoqTerm = lib.CoqApp("CaseSeq", coqOps(c.Ops), coqObs(out.Obs), lib.CoqNat(out.NFwd), natList(out.RCl))
 	return res
 }
 
@@ -350,6 +400,7 @@ type lHist struct {
 }
 type concObs struct {
 	Build   []O     `json:"build"`
+	RCl     []int   `json:"rclosed,omitempty"` // per base stream in creation order: number of closeRecv calls
 	Writers []wHist `json:"writers"`
 	Leaves  []lHist `json:"leaves"`
 	Hang    bool    `json:"hang,omitempty"`
@@ -383,23 +434,39 @@ func runConc(c *Case) lib.Result {
 	base := runtime.NumGoroutine()
 	w := newWorld()
 	sh := newShadow()
+	schema.VerifC19Start()
 	buildOK := true
-	for i, o := range c.Ops {
-		want, legal := sh.apply(o)
-		if !legal {
-			out.Build = append(out.Build, O{K: "illegal"})
-			continue
+	built := make(chan struct{})
+	go func() { // a constructor that never returns (Merge fills a stream) is a hang, not a stuck harness
+		defer close(built)
+		for i, o := range c.Ops {
+			want, legal := sh.apply(o)
+			if !legal {
+				out.Build = append(out.Build, O{K: "illegal"})
+				continue
+			}
+			var ob O
+			if p := lib.Recover(func() { ob = w.construct(o) }); p != nil {
+				fail("panic", fmt.Sprintf("op %d (%s) panicked: %v", i, o.K, p))
+				ob = O{K: "illegal"}
+				buildOK = false
+			} else if fmt.Sprint(ob.Hs) != fmt.Sprint(want) {
+				fail("handles", fmt.Sprintf("op %d (%s) returned readers %v, expected %v", i, o.K, ob.Hs, want))
+				buildOK = false
+			}
+			out.Build = append(out.Build, ob)
 		}
-		var ob O
-		if p := lib.Recover(func() { ob = w.construct(o) }); p != nil {
-			fail("panic", fmt.Sprintf("op %d (%s) panicked: %v", i, o.K, p))
-			ob = O{K: "illegal"}
-			buildOK = false
-		} else if fmt.Sprint(ob.Hs) != fmt.Sprint(want) {
-			fail("handles", fmt.Sprintf("op %d (%s) returned readers %v, expected %v", i, o.K, ob.Hs, want))
-			buildOK = false
-		}
-		out.Build = append(out.Build, ob)
+	}()
+	select {
+	case <-built:
+	case <-time.After(watchdog):
+		// the goroutine still owns out / sh / w: report nothing from them
+		schema.VerifC19Stop()
+		res.Obs = concObs{Hang: true, Msg: "a constructor call did not return"}
+		res.Oracle, res.Sig = "a Copy / Merge / Convert call is still blocked after the watchdog period", "hang"
+		res.Tags = []string{"mode:conc", "class:hang"}
+		res.CoqTerm = lib.CoqApp("CaseConc", coqOps(c.Ops), "[BIllegal]", "[]", "[]", "true", "0%nat")
+		return res
 	}
 	if w.nfwd > sh.nfwd {
 		// (a forwarder over an exhausted source may already be gone when it is counted)
@@ -407,6 +474,7 @@ func runConc(c *Case) lib.Result {
 	}
 	tags := []string{"mode:conc", fmt.Sprintf("fwd:%d", sh.nfwd), fmt.Sprintf("leaves:%d", len(c.Leaves)), fmt.Sprintf("pipes:%d", len(c.Writers))}
 	if !buildOK {
+		schema.VerifC19Stop()
 		res.Obs, res.Oracle, res.Sig, res.Tags = out, oracle, sig, tags
 		return res
 	}
@@ -438,6 +506,12 @@ func runConc(c *Case) lib.Result {
 		}
 	}
 	var runaway atomic.Int32
+	// logical clock: a writer takes a stamp before it calls Close, a reader after Recv returned
+	// io.EOF; a reader stamp below the stamp of a writer it derives from means the stream ended
+	// before that source had ended (independent of scheduling and machine load)
+	var clock atomic.Int64
+	eofAt := make([]int64, len(c.Leaves))
+	closeAt := make([]int64, len(c.Writers))
 	for i, l := range c.Leaves {
 		wg.Add(1)
 		r := root.Fork(uint64(1000 + i))
@@ -456,6 +530,7 @@ func runConc(c *Case) lib.Result {
 				yield(r)
 				o := classify(w.hs[l.H].Recv())
 				if o.R == "eof" {
+					eofAt[i] = clock.Add(1)
 					h.EOF = true
 					break
 				}
@@ -518,6 +593,7 @@ func runConc(c *Case) lib.Result {
 				}
 			}
 			yield(r)
+			closeAt[i] = clock.Add(1)
 			sw.Close()
 		}(i, wr)
 	}
@@ -529,10 +605,11 @@ func runConc(c *Case) lib.Result {
 		out.Hang = true
 	}
 	if out.Hang {
+		schema.VerifC19Stop()
 		fail("hang", "a reader or writer goroutine is still blocked after the watchdog period")
 		res.Obs, res.Oracle, res.Sig = concObs{Build: out.Build, Hang: true}, oracle, sig
 		res.Tags = append(tags, "class:hang")
-		res.CoqTerm = lib.CoqApp("CaseConc", coqOps(c.Ops), coqObs(out.Build), "[]", "[]", "true")
+		res.CoqTerm = lib.CoqApp("CaseConc", coqOps(c.Ops), coqObs(out.Build), "[]", "[]", "true", "0%nat")
 		return res
 	}
 	out.Writers, out.Leaves = wh, lh
@@ -550,6 +627,18 @@ func runConc(c *Case) lib.Result {
 	if d := runtime.NumGoroutine() - base; d > 0 {
 		out.Leak = d
 		fail("leak", fmt.Sprintf("%d goroutine(s) still alive after every writer and reader was closed", d))
+	}
+	// every reader has been closed and every forwarder goroutine is gone: the receive side of
+	// every base stream (pipes, the streams of the forwarders, the stream a merge builds from
+	// its array arguments) has been closed exactly once
+	out.RCl = closeRecvCounts(schema.VerifC19Stop())
+	if out.Leak == 0 && panics.Load() == 0 {
+		for k, n := range out.RCl {
+			if n != 1 {
+				fail("source-close-count", fmt.Sprintf("every reader is closed, but the receive side of base stream %d (in creation order) was closed %d time(s)", k, n))
+				break
+			}
+		}
 	}
 
 	// direct oracle on the histories
@@ -587,6 +676,13 @@ func runConc(c *Case) lib.Result {
 		for hp := range sh.hs[l.H].srcs {
 			if told[hp] && lh[i].EOF {
 				fail("told-but-eof", fmt.Sprintf("writer %d was told closed although reader %d read up to EOF", hp, l.H))
+			}
+		}
+		if lh[i].EOF {
+			for j, wr := range c.Writers {
+				if _, fed := sh.hs[l.H].srcs[wr.HP]; fed && eofAt[i] < closeAt[j] {
+					fail("eof-before-close", fmt.Sprintf("reader %d was handed io.EOF before the writer of pipe %d, which it derives from, had called Close", l.H, wr.HP))
+				}
 			}
 		}
 		for j, l2 := range c.Leaves {
@@ -660,6 +756,6 @@ func runConc(c *Case) lib.Result {
 	for i, l := range c.Leaves {
 		ls[i] = lib.CoqApp("L", lib.CoqNat(l.H), coqItems(lh[i].Got), lib.CoqBool(lh[i].EOF))
 	}
-	res.CoqTerm = lib.CoqApp("CaseConc", coqOps(c.Ops), coqObs(out.Build), lib.CoqList(ws), lib.CoqList(ls), "false")
+	res.CoqTerm = lib.CoqApp("CaseConc", coqOps(c.Ops), coqObs(out.Build), lib.CoqList(ws), lib.CoqList(ls), "false", lib.CoqNat(len(out.RCl)))
 	return res
 }
